@@ -35,6 +35,38 @@ fn gen(r: &mut Rng, tier: Tier, out: &mut Out) {
 		}
 		out.op("oracle-contract-extend", &[m, nss]);
 	}
+	// families of outer classes whose nested classes share simple names (source side and/or target side), nested three and four
+	// deep, in every insertion order: the extended name of a class must come from ITS OWN outer chain, however the names collide
+	for i in 0..rounds / 4 {
+		let n = r.range(2, 4);
+		let t = r.range(1, n - 1);
+		let outers = r.range(2, 3);
+		let same_src = r.chance(1, 2);
+		let same_dst = !r.chance(1, 4);
+		let mut classes: Vec<fvh::mapgen::GClass> = Vec::new();
+		let mut add = |r: &mut Rng, src: String, dst: String| {
+			let mut names: Vec<Option<String>> = vec![None; n];
+			names[0] = Some(src.clone());
+			for k in 1..n { names[k] = if k == t { Some(dst.clone()) } else if r.chance(1, 2) { Some(format!("o{k}{}", src.replace('$', "_").replace('/', "_"))) } else { None }; }
+			classes.push(fvh::mapgen::GClass { names, doc: None, fields: Vec::new(), methods: Vec::new() });
+		};
+		for o in 0..outers {
+			let osrc = format!("p/O{o}");
+			add(r, osrc.clone(), format!("q/T{o}"));
+			let msrc = format!("{osrc}${}", if same_src { "M".to_owned() } else { format!("M{o}") });
+			add(r, msrc.clone(), if same_dst { "Builder".to_owned() } else { format!("Builder{o}") });
+			let dsrc = format!("{msrc}$D");
+			add(r, dsrc.clone(), "Data".to_owned());
+			if r.chance(1, 2) { add(r, format!("{dsrc}$E"), "Leaf".to_owned()); }
+		}
+		// any insertion order (the cache of a faulty implementation is filled in this order)
+		for k in (1..classes.len()).rev() { let j = r.below(k + 1); classes.swap(k, j); }
+		let g = fvh::mapgen::GMappings { ns: ["official", "intermediary", "named", "extra"][..n].iter().map(|x| (*x).to_owned()).collect(), doc: None, classes };
+		let nss = Sexp::str(&g.ns[t]);
+		out.stats.hit(if same_dst { "family:same-target-simple-name" } else { "family:distinct-target-simple-names" });
+		if i % 2 == 0 { out.op("extend", &[g.to_sexp(), nss.clone()]); }
+		out.op("oracle-contract-extend", &[g.to_sexp(), nss]);
+	}
 	// split / join on strings over the relevant alphabet: exhaustive up to a length, then random
 	let alpha: &[u32] = &['a' as u32, '$' as u32, '/' as u32, 'B' as u32];
 	let max_len = if tier == Tier::Thorough { 7 } else { 5 };
